@@ -267,7 +267,7 @@ def thorough_selftest(prop, rc):
     from selftest.run import run as run_variants
 
     t0 = time.time()
-    bad, vs, res = run_variants({prop}, verbose=False, tier="quick", quiet=True)
+    bad, vs, res = run_variants({prop}, verbose=False, tier="quick", quiet=True, with_global=True)
     fired = sum(1 for v, r in zip(vs, res) if v["expect"] == "fire" and r["ok"])
     nfire = sum(1 for v in vs if v["expect"] == "fire")
     silent = sum(1 for v, r in zip(vs, res) if v["expect"] != "fire" and r["ok"])
